@@ -72,11 +72,33 @@ let snapshot (m : mfs) : string =
     (if api_wf_b m then 1 else 0)
 
 (* run a history from the fresh filesystem: per-op results, then the final state *)
-let run_hist (env : (n list * n list) list) (ops : string list) : string =
+let macro_names = ["exists"; "no_exists"; "is_dir"; "no_dir"; "is_file"; "no_file"; "is_symlink"; "no_symlink"; "read_all"; "readlink";
+                   "readlink_abs"; "mkdir_p"; "mkdir_m"; "mkfile"; "write_all"; "symlink"; "remove"; "remove_all"]
+let macro_id_s = function
+  | M_exists -> "exists" | M_no_exists -> "no_exists" | M_is_dir -> "is_dir" | M_no_dir -> "no_dir" | M_is_file -> "is_file"
+  | M_no_file -> "no_file" | M_is_symlink -> "is_symlink" | M_no_symlink -> "no_symlink" | M_read_all -> "read_all"
+  | M_readlink -> "readlink" | M_readlink_abs -> "readlink_abs" | M_mkdir_p -> "mkdir_p" | M_mkdir_m -> "mkdir_m" | M_mkfile -> "mkfile"
+  | M_write_all -> "write_all" | M_symlink -> "symlink" | M_remove -> "remove" | M_remove_all -> "remove_all" | M_copyfile -> "copyfile"
+let rec index_of x l i = match l with [] -> -1 | y :: r -> if x = y then i else index_of x r (i + 1)
+
+let run_hist ?(two = false) (env : (n list * n list) list) (ops : string list) : string =
   let rec go m ops acc =
     match ops with
     | [] -> String.concat "\t" (List.rev acc) ^ "\t#" ^ snapshot m
+    | o :: rest when String.length o > 6 && String.sub o 0 6 = "macro:" ->
+        (* macro:<name>:<a>:<b>:<mode> *)
+        let f = Array.of_list (split_colon o) in
+        let g i = if i < Array.length f then f.(i) else "" in
+        let idx = index_of (g 1) macro_names 0 in
+        let mode = if g 4 = "" then 0 else int_of_string (g 4) in
+        let b = if g 1 = "read_all" || g 1 = "write_all" then bytes_of_hex (g 3) else arg_str (g 3) in
+        (match api_macro env m (n_of_int idx) (arg_str (g 2)) b (n_of_int mode) with
+         | Done (m', Pass) -> go m' rest ("pass" :: acc)
+         | Done (m', Panics (name, _)) -> go m' rest (("panic:assert_vfs_" ^ macro_id_s name ^ "!") :: acc)
+         | Panic -> String.concat "\t" (List.rev ("PANIC" :: acc))
+         | OutOfFuel -> String.concat "\t" (List.rev ("HANG" :: acc)))
     | o :: rest ->
+        let acc = if two && rest = [] then ("#pre" ^ snapshot m) :: acc else acc in
         (match api_mfs_step env m (parse_op o) with
          | Done (m', r) -> go m' rest (result_s r :: acc)
          | Panic -> String.concat "\t" (List.rev ("PANIC" :: acc))
@@ -90,15 +112,19 @@ let bfs (env : (n list * n list) list) (alphabet : string list) (depth : int) (m
   let q = Queue.create () in
   Hashtbl.add seen (snapshot api_mfs_init) ();
   Queue.add (api_mfs_init, [], 0) q;
-  let parsed = List.map (fun o -> (o, parse_op o)) alphabet in
+  (* an alphabet line starting with '!' is a final call only: it is issued in every state but not used to reach new states *)
+  let parsed = List.map (fun o ->
+      if String.length o > 0 && o.[0] = '!' then let o' = String.sub o 1 (String.length o - 1) in (o', None, false)
+      else (o, Some (parse_op o), true)) alphabet in
+  let mode = try Sys.getenv "RVM_BFS_MODE" with Not_found -> "m" in
   let nstates = ref 1 in
   while not (Queue.is_empty q) do
     let (m, hist, d) = Queue.pop q in
-    List.iter (fun (os, o) ->
-        output_string oc (String.concat "\t" (["hist"; "m"; envs] @ List.rev (os :: hist)));
+    List.iter (fun (os, o, expand) ->
+        output_string oc (String.concat "\t" (["hist"; mode; envs] @ List.rev (os :: hist)));
         output_char oc '\n';
-        if d < depth && !nstates < maxstates then
-          match api_mfs_step env m o with
+        if expand && d < depth && !nstates < maxstates then
+          match api_mfs_step env m (match o with Some x -> x | None -> assert false) with
           | Done (m', _) ->
               let key = snapshot m' in
               if not (Hashtbl.mem seen key) then begin
@@ -138,3 +164,25 @@ let parse_snapshot (s : string) : mfs =
       | [k; d] -> (rp_of k, bytes_of_hex d)
       | _ -> failwith "snapshot data") (items (find_section "D{" '}')) in
   api_mfs_of_lists (rp_of (field "cwd")) (rp_of (field "root")) ents data
+
+(* histories with explicit write / append handles interleaved with plain calls *)
+let parse_hop (s : string) : hop =
+  match split_colon s with
+  | ["open_w"; p] -> HOpenWrite (arg_str p)
+  | ["open_a"; p] -> HOpenAppend (arg_str p)
+  | ["hwrite"; i; d] -> HWrite (nat_of_int (int_of_string i), bytes_of_hex d)
+  | ["hflush"; i] -> HFlush (nat_of_int (int_of_string i))
+  | ["hdrop"; i] -> HDrop (nat_of_int (int_of_string i))
+  | _ -> HPlain (parse_op s)
+
+let run_hhist (env : (n list * n list) list) (ops : string list) : string =
+  let rec go st ops acc =
+    match ops with
+    | [] -> String.concat "\t" (List.rev acc) ^ "\t#" ^ snapshot st.hs_fs
+    | o :: rest ->
+        (match api_hstep env st (parse_hop o) with
+         | Done (st', r) -> go st' rest (result_s r :: acc)
+         | Panic -> String.concat "\t" (List.rev ("PANIC" :: acc))
+         | OutOfFuel -> String.concat "\t" (List.rev ("HANG" :: acc)))
+  in
+  go api_h_init ops []
